@@ -224,6 +224,9 @@ def run_dequeue(run, P):
             continue
         rsites.sort(key=lambda ev: (int(ev['loc'].rsplit(':', 1)[1]), ev.get('col', 0)))
         rord = dict((id(ev), i + 1) for i, ev in enumerate(rsites))
+        dsites = sorted([ev for b, ev in P.events(f) if ev['e'].get('k') == 'call' and ev['e'].get('fn') == DELETE],
+                        key=lambda ev: (int(ev['loc'].rsplit(':', 1)[1]), ev.get('col', 0)))
+        dord = dict((id(ev), i + 1) for i, ev in enumerate(dsites))
 
         def is_rule_event(ev):
             t = ev['e']
@@ -266,7 +269,7 @@ def run_dequeue(run, P):
                     run.oblige('R-CNT-CON', ok, '%s:dequeue-accounted:%s' % (name, st[v]))
                     if not ok:
                         rs = rsites[int(st[v].split('#')[1]) - 1]
-                        run.violation('R-CNT-CON', name, rs['loc'], 'dequeued-not-uncounted:%s@remove#%s' % (v_name(f, v), st[v].split('#')[1]),
+                        run.violation('R-CNT-CON', name, rs['loc'], 'dequeued-not-uncounted:%s@remove#%s>delete#%d' % (v_name(f, v), st[v].split('#')[1], dord.get(id(ev), 0)),
                                       'the node taken out of the send queue by this coap_remove_from_queue() is deleted (%s) on a path that did not lower session->con_active: ' % ev['loc'].split('/')[-1] +
                                       'the finished Confirmable stays counted and, at NSTART, the messages held in the delay queue are never sent', ctx.path())
                     e = env.copy()
